@@ -123,6 +123,41 @@ where
     assert!(o.msg_len[L + 1] == chal_len && o.dst_len[L + 1] == api_len + H2S_EXTRA, "C10: challenge query has the wrong length");
     let enc = proof.to_bytes();
     assert!(enc.len() == 272 + 32 * u_count, "C03: proof length is not 272 + 32 * (number of undisclosed messages)");
+    if EDIT == 0 {
+        // C10: the prover's challenge input equals the draft's, computed independently from the signature,
+        // the programmed scalars and the draw table (r1, r2, e~, r1~, r3~, m~_j = draws 0, 1, 2, 3, 4, 5+j)
+        let gens = stubs::ref_gens(L + 1, false);
+        let mut ms = Vec::new();
+        let mut i = 0;
+        while i < L {
+            ms.push(rf::scalar_of_state(o.ans[i]));
+            i += 1;
+        }
+        let dom = rf::scalar_of_state(o.ans[L]);
+        let b = rf::b_value(&stubs::p1_of::<CS>(), &gens[0], &gens[1..], &dom, &ms);
+        let e = Scalar::from_nonzero_raw(9);
+        let a = b * (sk.0 + e).invert().unwrap();
+        let (r1, r2) = (crate::h::p05::draw_scalar(0), crate::h::p05::draw_scalar(1));
+        let dd = b * r2;
+        let abar = a * (r1 * r2);
+        let bbar = dd * r1 - abar * e;
+        let t1 = abar * crate::h::p05::draw_scalar(2) + dd * crate::h::p05::draw_scalar(3);
+        let mut t2 = dd * crate::h::p05::draw_scalar(4);
+        let mut dsc = Vec::new();
+        let mut j = 0;
+        let mut pos = 0;
+        while pos < L {
+            if (DMASK >> pos) & 1 == 0 {
+                t2 = t2 + gens[1 + pos] * crate::h::p05::draw_scalar(5 + j);
+                j += 1;
+            } else {
+                dsc.push(ms[pos]);
+            }
+            pos += 1;
+        }
+        let want = rf::challenge_bytes(&didx_sorted, &dsc, &abar, &bbar, &dd, &t1, &t2, &dom, ph.unwrap_or(&[]));
+        assert!(crate::h::p01::cap_equals(0, &want), "C10: the octets hashed into the proof challenge differ from the draft's challenge input");
+    }
 
     // ---- verifier side -------------------------------------------------------------------
     let mut dmsgs: Vec<Vec<u8>> = Vec::new();
